@@ -30,6 +30,8 @@ CHECKS = {
             dict(run="TestSmallKeysExhaustive", checks=None, timeout=1200),
             dict(run="TestRandomKeys", checks_quick=20000, checks_thorough=400000, shards_thorough=4),
             dict(run="TestCustomHasher", checks_quick=5000, checks_thorough=200000),
+            dict(run="TestCustomHasherSequences", checks_quick=3000, checks_thorough=100000),
+            dict(run="TestLeastBytesLargeTotals", checks_quick=200, checks_thorough=5000),
             dict(run="TestRoundRobin", checks_quick=3000, checks_thorough=60000, shards_thorough=2),
             dict(run="TestLeastBytes", checks_quick=3000, checks_thorough=60000, shards_thorough=2),
         ],
